@@ -1,7 +1,8 @@
 """Packaging harness for C20: stub build tools on PATH, the real packaging pipeline in a process of its own.
 
 * `STUB`: one shell script installed under the names conan / java / nuget / lipo / xcodebuild / git. It logs
-  (index, tool, cwd, argv) to `$STUB_ROOT/log.tsv`, exits 3 at invocation `$STUB_FAIL_AT`, removes every stub after
+  (index, tool, cwd, argv) to `$STUB_ROOT/log.tsv`, exits 3 at the invocations listed in `$STUB_FAIL_AT` (a *set* of
+  indices: a handled probe and its fallback can both be made to fail), removes every stub after
   invocation `$STUB_MISSING_AT - 1` (so that `shutil.which` finds nothing from that point on), and otherwise leaves
   the files the real tool would leave (the same ones the Lean model lists as the step's effect).
   The Android target runs its own `gradlew` wrapper script (rendered from the template); the stub is `java`.
@@ -36,7 +37,8 @@ n=$(cat "$STUB_ROOT/counter" 2>/dev/null || echo 0)
 echo $((n+1)) > "$STUB_ROOT/counter"
 tool=$(basename "$0")
 printf '%s\t%s\t%s\t%s\n' "$n" "$tool" "$(pwd)" "$*" >> "$STUB_ROOT/log.tsv"
-if [ "$n" = "$STUB_FAIL_AT" ]; then exit 3; fi
+if [ "$STUB_MISSING_AT" = "$((n+1))" ]; then for t in conan java nuget lipo xcodebuild git; do rm -f "$STUB_ROOT/bin/$t"; done; fi
+case " $STUB_FAIL_AT " in *" $n "*) exit 3;; esac
 case "$tool" in
 conan)
   while [ $# -gt 0 ]; do if [ "$1" = "--output-folder" ]; then of="$2"; fi; shift; done
@@ -62,7 +64,6 @@ xcodebuild)
 git)
   if [ "$1" = "clone" ]; then for a in "$@"; do dst="$a"; done; mkdir -p "$dst/.git"; echo ref > "$dst/.git/HEAD"; echo swift > "$dst/Package.swift"; fi;;
 esac
-if [ "$STUB_MISSING_AT" = "$((n+1))" ]; then for t in conan java nuget lipo xcodebuild git; do rm -f "$STUB_ROOT/bin/$t"; done; fi
 exit 0
 '''
 
@@ -167,6 +168,10 @@ def model_request(case, templates) -> dict:
     f = case.get("fault")
     if f:
         req["fault"] = {"k": f["k"], "kind": f["model_kind"]}
+        if f.get("also"):
+            req["fault"]["also"] = list(f["also"])
+        if f.get("then_missing") is not None:
+            req["fault"]["thenMissing"] = f["then_missing"]
     if case["phase"] == "publish":
         req["remove"], req["add"] = pre_publish_edits(case)
     return req
@@ -254,7 +259,9 @@ def _arm(root: Path, fault):
     _install_stubs(root, with_tools=not (fault and fault["kind"] == "missing" and fault["k"] == 0))
     if fault:
         if fault["kind"] == "nonzero":
-            os.environ["STUB_FAIL_AT"] = str(fault["k"])
+            os.environ["STUB_FAIL_AT"] = " ".join(str(k) for k in [fault["k"]] + list(fault.get("also") or []))
+            if fault.get("then_missing") is not None:      # always > k >= 0
+                os.environ["STUB_MISSING_AT"] = str(fault["then_missing"])
         elif fault["k"] > 0:
             os.environ["STUB_MISSING_AT"] = str(fault["k"])
 
